@@ -11,6 +11,8 @@ MCU2 == << <<0,0,0,0>>, <<0,0,0,1>>, <<0,0,0,2>>, <<0,0,0,3>>, <<0,0,1,0>>, <<0,
            <<2,3,2,3>>, <<2,3,3,0>>, <<2,3,3,1>>, <<2,3,3,2>>, <<2,3,3,3>> >>
 MCOpPages2 == { <<0,0,0,0>>, <<0,0,0,1>>, <<0,0,1,0>>, <<0,1,0,0>>, <<1,0,0,0>>, <<2,0,0,3>> }
 MCIdPages2 == { <<0,0,0,1>> }
-MCFlagsA == { {0}, {0,1,63} }
-MCFlagsB == { {0}, {0,1}, {0,2,63}, {0,9,63}, {0,1,2} }
+\* leaf flag sets are drawn from ALL declared PageTableEntryFlag bits: 0 present, 1 RW, 2 user, 3 write-through, 4 no-cache,
+\* 5 accessed, 6 dirty, 7 huge page (= PAT on a 4K leaf), 8 global, 9 copy-on-write, 63 no-execute
+MCFlagsA == { {0}, {0,1,7,63} }
+MCFlagsB == { {0}, {0,1,5,6,7}, {0,2,63}, {0,7,9,63}, {0,1,2,3,4,8} }
 ====
